@@ -370,6 +370,7 @@ def m_docstring(draw: Draw, text: str) -> Optional[str]:
 
 
 RENAMES = ["I_x", "Must_x", "str", "Str", "class", "Class", "Error", "x", "_x", "X_", "X__y", "\u00e9", "mutable_x", "over_x_or_empty",
+           "gr\u00f6\u00dfe", "Caf\u00e9", "te\u03c7t", "Gr\u00fcn_thing", "xe\u0308", "a\u00b7b", "x\uff11",
            "Path", "match", "Match", "self", "None_x", "type", "Type", "aas", "Iterator", "Verification", "Visitor", "Transformer",
            "Jsonization", "Context", "Enhanced", "Record", "Partial", "model_type", "Model_type", "descend", "accept", "transform"]
 
